@@ -1,0 +1,8 @@
+//go:build !verif
+
+// Package verifhook provides named pause points for the runtime verification harness.
+// Without the build tag "verif" every call is an empty, inlinable function.
+package verifhook
+
+// At marks a named point in the code. It does nothing unless built with -tags verif.
+func At(point string) {}
